@@ -112,13 +112,30 @@ func runC15(c *eng.Ctx) {
 		is, _ := c.P.ConstsOfType(ignorePkg, "IgnoreStatus")
 		want := map[int64]int64{ms["MatchStatusNominal"]: is["IgnoreStatusNominal"], ms["MatchStatusMatched"]: is["IgnoreStatusIgnored"], ms["MatchStatusInverted"]: is["IgnoreStatusUnignored"]}
 		seen := map[int64]bool{}
+		// one (result constant, facts under which it is produced) per mapping arm:
+		// either a return of a constant, or a constant edge of the φ a single
+		// return merges (`adapted = …` in each arm, `return adapted, …` at the end)
+		type arm struct {
+			r   *ssa.Return
+			out int64
+			g   []eng.Atom
+		}
+		var arms []arm
 		for _, r := range eng.Returns(ig) {
 			res := eng.RetResults(r)
-			out, ok := eng.ConstInt64(res[0])
-			if !ok {
-				continue
+			if out, ok := eng.ConstInt64(res[0]); ok {
+				arms = append(arms, arm{r, out, eng.Guards(r)})
+			} else if phi, ok := eng.Unwrap(res[0]).(*ssa.Phi); ok {
+				for i, e := range phi.Edges {
+					if out, ok := eng.ConstInt64(e); ok {
+						arms = append(arms, arm{r, out, edgeGuards(phi.Block().Preds[i], phi.Block())})
+					}
+				}
 			}
-			g := eng.Guards(r)
+		}
+		for _, a := range arms {
+			r, out, g := a.r, a.out, a.g
+			res := eng.RetResults(r)
 			var in int64 = -1
 			for _, a := range g {
 				if a.Pos && strings.HasSuffix(a.Expr, ":MatchStatus)") && strings.Contains(a.Expr, "MatchesForMutagen(") {
@@ -196,8 +213,33 @@ func runC15(c *eng.Ctx) {
 				return
 			}
 			decided = true
-			eq, cex, _ := eng.TruthTableEqual(be, []string{anil, adir, tracked}, func(e map[string]bool) bool { return e[tracked] || (!e[anil] && e[adir]) })
-			c.Check("R4", "reify-to-tracked-function", iff.Pos(), eq, "reifyToTracked = tracked content below ∨ (ancestor is a directory) [truth table]", fmt.Sprintf("%s; counterexample %v", be.String()[:min(160, len(be.String()))], cex))
+			// which successor does the «tracked» work (stores Kind = Directory)? The
+			// condition may be written either way round (reifyToTracked, or
+			// reifyToUntracked with the arms swapped).
+			trackSucc := -1
+			eng.EachInstr(rp, func(j ssa.Instruction) {
+				st, ok := j.(*ssa.Store)
+				if !ok {
+					return
+				}
+				if fa, ok := st.Addr.(*ssa.FieldAddr); ok && eng.FieldOf(fa).Name() == "Kind" {
+					if k, isC := eng.ConstInt64(st.Val); isC && k == kinds["EntryKind_Directory"] {
+						for s, succ := range iff.Block().Succs {
+							if succ.Dominates(st.Block()) {
+								trackSucc = s
+							}
+						}
+					}
+				}
+			})
+			eq, cex, _ := eng.TruthTableEqual(be, []string{anil, adir, tracked}, func(e map[string]bool) bool {
+				v := e[tracked] || (!e[anil] && e[adir])
+				if trackSucc == 1 {
+					return !v
+				}
+				return v
+			})
+			c.Check("R4", "reify-to-tracked-function", iff.Pos(), eq && trackSucc >= 0, "the arm that reifies to tracked directories is taken exactly when tracked content exists below ∨ the ancestor is a directory [truth table]", fmt.Sprintf("%s; tracked arm=%d; counterexample %v", be.String()[:min(160, len(be.String()))], trackSucc, cex))
 		})
 		if !decided {
 			c.Check("R4", "reify-to-tracked-function", rp.Pos(), false, "the reification decision could be extracted")
